@@ -222,7 +222,7 @@ def run_check(prop, tier, seed):
     q = tier == "quick"
     payloads = []
     plan_a = [("solve", 200), ("hist", 80), ("file-valid", 200), ("file-mutant", 600), ("basis-mutant", 300), ("missing", 100), ("basis", 150), ("copy", 40), ("verdict", 100),
-              ("probe", 300), ("lu-api", 60), ("enum", 12)]
+              ("probe", 300), ("lu-api", 60), ("enum", 12), ("oddparam", 60)]
     scale = 1 if q else 15
     for stream, n in plan_a:
         n *= scale
